@@ -30,18 +30,3 @@ Definition C12_share_across_calls_statement : Prop :=
     forall v, In v (vs_vals s) ->
       Z.abs (total_power (vs_vals s) * ProofsSpec.count (v_addr v) seq - Z.of_nat k * v_power v)
       <= 2 * (Z.of_nat (length (vs_vals s)) + 1) * total_power (vs_vals s) + Z.of_nat (length (vs_vals s)).
-
-(** Completeness of the validation: every change set that the specification accepts is
-    accepted by the code (so the error cases are exactly the specified ones).  Proved: the
-    converse (C12_update_refines_spec, the C12_update_rejects theorems) and that the code never
-    panics; the error class on each generated invalid change set is compared with the set of
-    applicable specification classes by the direct oracle.  Missing in Coq: that the running
-    total of verifyUpdates (deltas in ascending order) stays below the cap whenever the final
-    total does, and that the emptiness test fires only when the resulting membership is empty. *)
-Definition C12_update_accepts_valid_statement : Prop :=
-  forall s cs m,
-    good s -> cs <> [] ->
-    spec_valid_changes max_total_voting_power (vs_vals s) cs ->
-    (forall c, In c cs -> v_addr c <> 0%N) ->
-    spec_members (vs_vals s) cs m -> m <> [] -> total_power m <= max_total_voting_power ->
-    exists s', update_with_change_set s cs true = Some (s', UOk).
